@@ -211,7 +211,7 @@ func c07QueueFull(w *fw.Worker, i int, r *fw.Rand) {
 		return
 	}
 	defer e.Stop()
-	e.CBGate = make(chan struct{})
+	e.SetCBGate(make(chan struct{}))
 	released := false
 	defer func() {
 		if !released {
